@@ -183,12 +183,22 @@ def render_check(task):
     seen = set()
     disk_spans = None
     try:
-        for variant in ('fresh', 'restored'):   # second session restores the tree from the cache written by the first
+        src0 = src
+        for variant in ('fresh', 'restored', 'edited'):   # second session restores the tree from the cache written by the first
+            if variant == 'edited':
+                # the file is saved again with other text (two comment lines in front, every span moves) and a later mtime;
+                # the next session of this process must report the spans of the text that is in the file now
+                src = '# edited\n#\n' + src0
+                with open(fp, 'w', newline='') as f:
+                    f.write(src)
+                st = os.stat(fp)
+                os.utime(fp, (st.st_mtime + 10, st.st_mtime + 10))
             s = Session({}, cache=True)
             ep = s.get(Entrypoints).load(mod)
             nodes = ep._Node__nodes
             root = nodes._Nodes__entries.by('file_input')
-            lines = src.split('\n')
+            # (the quoted line is the text of the line without its line terminator, CRLF included)
+            lines = [ln[:-1] if ln.endswith('\r') else ln for ln in src.split('\n')]
             # the tree the application built from the file (default source provider, cache): same span rules
             for sig, what, rep in check_tree(src, root, f'{variant}-on-disk', disk_spans if variant == 'restored' else None):
                 if tuple(sig) not in seen:
